@@ -135,6 +135,14 @@ func addrClass(addr ssa.Value) locClass {
 		}
 	case *ssa.Global:
 		return locClass("G:" + shortPkg(a.Pkg.Pkg.Path()) + "." + a.Name())
+	case *ssa.Alloc:
+		if c, ok := cellClass(a); ok {
+			return c
+		}
+	case *ssa.FreeVar:
+		if c, ok := freeVarClass(a, 0); ok {
+			return c
+		}
 	}
 	if pt, ok := addr.Type().Underlying().(*types.Pointer); ok {
 		return locClass("T:" + shortType(pt.Elem()))
@@ -300,7 +308,22 @@ func (fa *FA) clobbers(in ssa.Instruction, c locClass) bool {
 		callees := fa.ms.calleesOf(x)
 		for _, cal := range callees {
 			if fa.ms.mods[cal][c] {
+				if owner, isCell := cellOwner[c]; isCell && !nestedIn(cal, owner) {
+					// a (recursive) activation of the owner writes its own fresh cell, not this one
+					continue
+				}
 				return true
+			}
+		}
+		// a closure handed to (or started by) this call may run and write what it captures
+		if strings.HasPrefix(string(c), "A:") {
+			vals := append([]ssa.Value{com.Value}, com.Args...)
+			for _, a := range vals {
+				if mc, ok := a.(*ssa.MakeClosure); ok {
+					if f, ok := mc.Fn.(*ssa.Function); ok && fa.ms.mods[f][c] {
+						return true
+					}
+				}
 			}
 		}
 		// a pointer handed to code outside the module may be written through
@@ -1181,4 +1204,100 @@ func (fa *FA) getterKey(c *ssa.Call) (string, bool) {
 		args = append(args, fa.Sym(a).K)
 	}
 	return "get:" + calleeName(&c.Call) + "(" + strings.Join(args, ",") + ")[" + strings.Join(vers, ",") + "]", true
+}
+
+// ---- closure-shared cells ---------------------------------------------------------
+
+var cellClassCache = map[*ssa.Alloc]locClass{}
+
+// cellClass: a variable whose address is used only for loads, stores and closure
+// capture (a captured local). Such a cell aliases nothing else, so it gets a
+// location class of its own; it is written only by stores in its function and by
+// closures that capture it.
+func cellClass(a *ssa.Alloc) (locClass, bool) {
+	if c, ok := cellClassCache[a]; ok {
+		return c, c != ""
+	}
+	ok := true
+	var chk func(v ssa.Value, depth int)
+	chk = func(v ssa.Value, depth int) {
+		for _, r := range referrers(v) {
+			switch x := r.(type) {
+			case *ssa.UnOp:
+				if x.Op != token.MUL {
+					ok = false
+				}
+			case *ssa.Store:
+				if x.Val == v {
+					ok = false
+				}
+			case *ssa.MakeClosure:
+			case *ssa.DebugRef:
+			case *ssa.FieldAddr:
+				if depth < 4 {
+					chk(x, depth+1)
+				} else {
+					ok = false
+				}
+			default:
+				ok = false
+			}
+		}
+	}
+	chk(a, 0)
+	c := locClass("")
+	if ok && a.Parent() != nil {
+		c = locClass("A:" + fnName(a.Parent()) + ":" + a.Name() + ":" + a.Comment)
+		cellOwner[c] = a.Parent()
+	}
+	cellClassCache[a] = c
+	return c, c != ""
+}
+
+// freeVarClass resolves a closure's free variable to the captured cell's class.
+func freeVarClass(fv *ssa.FreeVar, depth int) (locClass, bool) {
+	fn := fv.Parent()
+	if fn == nil || fn.Parent() == nil || depth > 4 {
+		return "", false
+	}
+	idx := -1
+	for i, f := range fn.FreeVars {
+		if f == fv {
+			idx = i
+		}
+	}
+	if idx < 0 {
+		return "", false
+	}
+	var res locClass
+	found := false
+	eachInstr(fn.Parent(), func(in ssa.Instruction) {
+		mc, ok := in.(*ssa.MakeClosure)
+		if !ok || mc.Fn != fn || idx >= len(mc.Bindings) {
+			return
+		}
+		switch b := mc.Bindings[idx].(type) {
+		case *ssa.Alloc:
+			if c, ok := cellClass(b); ok {
+				res, found = c, true
+			}
+		case *ssa.FreeVar:
+			if c, ok := freeVarClass(b, depth+1); ok {
+				res, found = c, true
+			}
+		}
+	})
+	return res, found
+}
+
+var cellOwner = map[locClass]*ssa.Function{}
+
+// nestedIn: f is a closure (transitively) nested inside owner.
+func nestedIn(f, owner *ssa.Function) bool {
+	for p := f.Parent(); p != nil; p = p.Parent() {
+		if p == owner {
+			return true
+		}
+	}
+	return false
 }
